@@ -63,6 +63,8 @@ func (d *dialer) Dial() (transport.Pipe, error) {
 }
 
 func (d *dialer) SetOption(n string, v interface{}) error {
+	d.lock.Lock()
+	defer d.lock.Unlock()
 	switch n {
 	case mangos.OptionMaxRecvSize:
 		if b, ok := v.(int); ok {
